@@ -19,6 +19,8 @@ import (
 	"path/filepath"
 	"sort"
 	"strings"
+	"sync"
+	"sync/atomic"
 	"testing"
 	"testing/synctest"
 	"time"
@@ -206,7 +208,28 @@ func RunRoutingPlan(t *testing.T, scn int, rp *RoutingPlan, rec *Recorder, dir, 
 				}
 			case "rollout_set":
 				w.execCmdX(Cmd{ID: id, Kind: "rollout_set", Svc: st.Svc, Pct: []int{0, 0, 100}[st.Arg], Allow: []string{"vip"}}, noOpt("none", st.Arg))
-			case "rollout_stop", "resume", "remove":
+			case "remove":
+				// TLS handshakes for every name keep arriving while the service is removed (two goroutines asking for
+				// certificates on the real clock; remove waits for no timer, so virtual time need not move meanwhile):
+				// whatever they saw, afterwards a certificate is served only for names that are still bound
+				var stop atomic.Bool
+				var hwg sync.WaitGroup
+				for g := 0; g < 2 && len(rp.SNI) > 0; g++ {
+					hwg.Add(1)
+					go func() {
+						defer hwg.Done()
+						for i := 0; !stop.Load(); i++ {
+							func() {
+								defer func() { recover() }()
+								w.router.GetCertificate(&tls.ClientHelloInfo{ServerName: rp.SNI[i%len(rp.SNI)]})
+							}()
+						}
+					}()
+				}
+				w.execCmdX(Cmd{ID: id, Kind: st.Op, Svc: st.Svc}, noOpt("none", 0))
+				stop.Store(true)
+				hwg.Wait()
+			case "rollout_stop", "resume":
 				w.execCmdX(Cmd{ID: id, Kind: st.Op, Svc: st.Svc}, noOpt("none", 0))
 			case "pause":
 				w.execCmdX(Cmd{ID: id, Kind: "pause", Svc: st.Svc, DrainTimeoutMs: 500, MaxPauseMs: 2000}, noOpt("none", 0))
